@@ -61,9 +61,11 @@ func (s Sched) Compact() string {
 type scen struct {
 	netx.Scenario
 	setup    *netx.Setup
-	maxBound int  // deviation bound explored for this scenario
-	allTxs   bool // every transaction of TxAt must be on chain when the path completes
-	maxSil   int  // f
+	maxBound int      // deviation bound explored for this scenario
+	allTxs   bool     // every transaction of TxAt must be on chain when the path completes
+	boundary bool     // block-limit boundary content: the first block must be made at view 0, without any ChangeView, and hold exactly expect
+	expect   []string // catalogue names the first block must hold (boundary scenarios)
+	maxSil   int      // f
 }
 
 // Replay artefact / violation detail.
@@ -87,19 +89,20 @@ type problem struct {
 }
 
 type result struct {
-	Events   []netx.Event
-	Log      []string
-	Warns    []string
-	Problems []problem
-	Children []Sched
-	NewSt    int
-	Steps    int
-	End      string // done | pruned | stuck | limit | error
-	Err      string
-	Blocks   []string // per height: hash/view/primary/txs
-	Views    []int
-	MaxLive  int // longest default continuation that was needed to commit the next block everywhere
-	CarryOK  int
+	Events    []netx.Event
+	Log       []string
+	Warns     []string
+	Problems  []problem
+	Children  []Sched
+	NewSt     int
+	Steps     int
+	End       string // done | pruned | stuck | limit | error
+	Err       string
+	Blocks    []string // per height: hash/view/primary/txs
+	Views     []int
+	MaxLive   int // longest default continuation that was needed to commit the next block everywhere
+	CarryOK   int
+	BlockSize int
 }
 
 // visited maps state digest -> fewest deviations it was reached with.
@@ -152,7 +155,7 @@ func run(t *testing.T, sc *scen, s Sched, o runOpts) (res *result) {
 			w.Close()
 			tClose.Add(realNano() - t2)
 		}()
-		target := sc.setup.H0 + uint32(sc.Heights)
+		target := w.H0() + uint32(sc.Heights)
 		add := func(step int, ps []netx.Problem) {
 			for _, p := range ps {
 				res.Problems = append(res.Problems, problem{p.Oracle, p.Text, step})
@@ -245,7 +248,7 @@ func run(t *testing.T, sc *scen, s Sched, o runOpts) (res *result) {
 					res.CarryOK++
 				}
 				{
-					tag := fmt.Sprintf("h+%d:view%d:primary%d:txs%d", c.Height-sc.setup.H0, pr.View, c.Prim, len(c.Txs))
+					tag := fmt.Sprintf("h+%d:view%d:primary%d:txs%d", c.Height-w.H0(), pr.View, c.Prim, len(c.Txs))
 					dup := false
 					for _, b := range res.Blocks {
 						if b == tag {
@@ -265,7 +268,7 @@ func run(t *testing.T, sc *scen, s Sched, o runOpts) (res *result) {
 				break
 			}
 			if o.vis != nil && step >= lastAt {
-				if o.vis.visit(w.Digest(), len(s.Devs)) {
+				if o.vis.visit(sc.Name+"|"+w.Digest(), len(s.Devs)) {
 					if step > lastAt || len(s.Devs) > 0 {
 						res.End = "pruned"
 						break
@@ -277,6 +280,64 @@ func run(t *testing.T, sc *scen, s Sched, o runOpts) (res *result) {
 		}
 		if res.End != "error" {
 			add(res.Steps, w.CatchUp())
+		}
+		if sc.boundary && len(s.Devs) == 0 && o.explicit == nil {
+			// All validators honest, every message delivered: the limits the
+			// primary packs by and the limits the backups verify by must agree.
+			lim := func(f string, a ...any) {
+				res.Problems = append(res.Problems, problem{"limits", fmt.Sprintf(f, a...), max(res.Steps-1, 0)})
+			}
+			for _, p := range w.Payloads {
+				if p.Type == dbft.ChangeViewType {
+					lim("node %d asked for a view change at height %d view %d although all nodes are honest and all messages delivered (pool content %q)", p.From, p.Height, p.View, sc.Name)
+					break
+				}
+			}
+			cfg := w.Nodes[0].C.BC.GetConfig()
+			var first *netx.Commit
+			for _, c := range w.Commits {
+				if c.Height == w.H0()+1 && c.Bytes != nil && (c.Err == "" || c.Exists) {
+					first = c
+					break
+				}
+			}
+			if first == nil {
+				lim("no block %d was produced (pool content %q)", w.H0()+1, sc.Name)
+			} else {
+				var names []string
+				var fee int64
+				for _, h := range first.Txs {
+					if i := sc.setup.TxIndex(h); i >= 0 {
+						names = append(names, sc.setup.Txs[i].Name)
+						fee += sc.setup.Txs[i].SysFee
+					} else {
+						names = append(names, h[:8])
+					}
+				}
+				sort.Strings(names)
+				want := append([]string{}, sc.expect...)
+				sort.Strings(want)
+				if sc.expect == nil {
+					if len(names) != int(cfg.MaxTransactionsPerBlock) {
+						lim("block %d holds %d transactions %v although %d are pooled and MaxTransactionsPerBlock is %d", first.Height, len(names), names, len(sc.TxAt), cfg.MaxTransactionsPerBlock)
+					}
+				} else if fmt.Sprint(names) != fmt.Sprint(want) {
+					lim("block %d holds %v, the limit-respecting prefix of the pool is %v", first.Height, names, want)
+				}
+				if len(res.Views) > 0 && res.Views[0] != 0 {
+					lim("block %d was made at view %d", first.Height, res.Views[0])
+				}
+				if len(first.Bytes) > int(cfg.MaxBlockSize) {
+					lim("block %d is %d bytes, MaxBlockSize is %d", first.Height, len(first.Bytes), cfg.MaxBlockSize)
+				}
+				if fee > cfg.MaxBlockSystemFee {
+					lim("block %d has system fee %d, MaxBlockSystemFee is %d", first.Height, fee, cfg.MaxBlockSystemFee)
+				}
+				if len(first.Txs) > int(cfg.MaxTransactionsPerBlock) {
+					lim("block %d has %d transactions, MaxTransactionsPerBlock is %d", first.Height, len(first.Txs), cfg.MaxTransactionsPerBlock)
+				}
+				res.BlockSize = len(first.Bytes)
+			}
 		}
 		if res.End == "done" && sc.allTxs && !w.AnySilent() {
 			if miss := w.MissingOnChain(0); len(miss) > 0 {
@@ -383,6 +444,49 @@ func scenarios(r *vk.Run, dir string) ([]*scen, error) {
 		Name: "n4-saturated", Family: "n4sat", Heights: 4,
 		TxAt: map[string][]int{"bigA": all4, "bigB": all4, "s0": {0}, "s1": {1}, "s2": {2}, "s3": {3}},
 	}})
+	// Block-limit boundaries: small limits through the protocol configuration
+	// (MaxBlockSystemFee 10 GAS, MaxBlockSize 2048, MaxTransactionsPerBlock 3),
+	// with and without StateRootInHeader; every validator pools the same
+	// content; exhaustive over contents x primaries (pad blocks slide the
+	// primary); only the synchronous default schedule (bound 0).
+	type content struct {
+		name   string
+		pool   []string
+		expect []string
+	}
+	contents := []content{
+		{"fee-1", []string{"fA", "fBm"}, []string{"fA", "fBm"}},
+		{"fee=", []string{"fA", "fB0"}, []string{"fA", "fB0"}},
+		{"fee+1", []string{"fA", "fBp"}, []string{"fA"}},
+		{"fee-single=", []string{"fMax"}, []string{"fMax"}},
+		{"count-1", []string{"c0", "c1"}, []string{"c0", "c1"}},
+		{"count=", []string{"c0", "c1", "c2"}, []string{"c0", "c1", "c2"}},
+		{"count+1", []string{"c0", "c1", "c2", "c3"}, nil}, // any 3 of the 4 (pool priority order): checked by the carry oracle
+		{"size-1", []string{"zA", "zBm"}, []string{"zA", "zBm"}},
+		{"size=", []string{"zA", "zB0"}, []string{"zA", "zB0"}},
+		{"size+1", []string{"zA", "zBp"}, []string{"zA"}},
+	}
+	for _, srih := range []bool{false, true} {
+		fname := "n4lim"
+		if srih {
+			fname = "n4limS"
+		}
+		famL, err := netx.NewSetup(netx.Family{Name: fname, N: 4, Lim: true, SRIH: srih}, dir)
+		if err != nil {
+			return nil, err
+		}
+		for _, c := range contents {
+			for pad := 0; pad < 4 && pad <= len(famL.Pads); pad++ {
+				at := map[string][]int{}
+				for _, n := range c.pool {
+					at[n] = all4
+				}
+				out = append(out, &scen{setup: famL, maxBound: 0, maxSil: 1, boundary: true, expect: c.expect, Scenario: netx.Scenario{
+					Name: fmt.Sprintf("%s:%s:primary%d", fname, c.name, (int(famL.H0)+pad+1)%4), Family: fname, Heights: 1, Pad: pad, TxAt: at,
+				}})
+			}
+		}
+	}
 	if r.Thorough() || os.Getenv("C19_N7") != "" {
 		fam7, err := netx.NewSetup(netx.Family{Name: "n7", N: 7}, dir)
 		if err != nil {
@@ -407,6 +511,7 @@ func scenByName(scs []*scen, name string) *scen {
 }
 
 func TestCheck(t *testing.T) {
+	vk.UseT(t)
 	if os.Getenv("C19_CHILD") == "" && os.Getenv("C19_NOSUP") == "" {
 		supervise()
 		return
@@ -461,7 +566,7 @@ func TestCheck(t *testing.T) {
 			for _, p := range res.Problems {
 				fmt.Println("    PROBLEM:", p.Oracle, p.Step, p.Text)
 			}
-			fmt.Println("    blocks:", res.Blocks, "maxlive:", res.MaxLive, "children:", len(res.Children))
+			fmt.Println("    blocks:", res.Blocks, "first block bytes:", res.BlockSize, "maxlive:", res.MaxLive, "children:", len(res.Children))
 		}
 		fmt.Println("probe:", s.Compact(), res.End, res.Err)
 		os.Exit(0)
@@ -514,6 +619,7 @@ func TestCheck(t *testing.T) {
 	for _, sc := range scs {
 		level[sc.Name] = []Sched{{Scen: sc.Name}}
 	}
+	boundaryRuns := 0
 	for b := 0; b <= 2; b++ {
 		// all scenarios' schedules with exactly b deviations
 		type job struct {
@@ -528,7 +634,11 @@ func TestCheck(t *testing.T) {
 			for _, s := range level[sc.Name] {
 				jobs = append(jobs, job{sc, s})
 			}
-			levelSizes[sc.Name] = append(levelSizes[sc.Name], len(level[sc.Name]))
+			if sc.boundary {
+				boundaryRuns++
+			} else {
+				levelSizes[sc.Name] = append(levelSizes[sc.Name], len(level[sc.Name]))
+			}
 		}
 		next := map[string][]Sched{}
 		var nmu sync.Mutex
@@ -645,7 +755,17 @@ func TestCheck(t *testing.T) {
 	fmt.Printf("C19: self-check done, %.0fs elapsed\n", r.Elapsed())
 	minCompleted := 2
 	var scNames []string
+	var boundaryNames []string
+	boundaryDone := 0
 	for _, sc := range scs {
+		if sc.boundary {
+			boundaryNames = append(boundaryNames, sc.Name)
+			if _, ok := completed[sc.Name]; ok {
+				boundaryDone++
+			}
+			delete(completed, sc.Name)
+			continue
+		}
 		scNames = append(scNames, fmt.Sprintf("%s(N=%d,heights=%d,bound<=%d)", sc.Name, sc.setup.Fam.N, sc.Heights, sc.maxBound))
 		c, ok := completed[sc.Name]
 		if !ok {
@@ -670,6 +790,11 @@ func TestCheck(t *testing.T) {
 		"schedules_per_bound":              levelSizes,
 		"distinct_final_outcomes":          stateDist.Len(),
 		"scenarios":                        scNames,
+		"boundary_scenarios":               boundaryNames,
+		"boundary_scenarios_run":           boundaryRuns,
+		"boundary_scenarios_completed":     boundaryDone,
+		"boundary_limits":                  map[string]int{"MaxBlockSystemFee": netx.LimMaxBlockSystemFee, "MaxBlockSize": netx.LimMaxBlockSize, "MaxTransactionsPerBlock": netx.LimMaxTxPerBlock},
+		"boundary_rule":                    "families n4lim / n4limS (StateRootInHeader): every validator pools the same content; contents: total system fee limit-1 / = / +1, single tx = limit, tx count limit-1 / = / +1, packed block size limit-1 / = / +1; x every primary (0..3 pad blocks); default schedule only; oracle: no ChangeView at all, block at view 0 holding exactly the limit-respecting prefix, serialised block within the limits",
 		"n7_status":                        n7,
 		"liveness_step_bound":              map[string]int{"N=4": liveBound4, "N=7": liveBound7},
 		"liveness_max_steps_observed":      int(maxLive.Load()),
